@@ -7,7 +7,9 @@
 (* inputs (raw best fitness per species as dense ranks, which species kept a quota, the executor's sort order,       *)
 (* which species received offspring).  Failing clauses are collected in `verdict`; the state then advances with the *)
 (* logged values so that one defect is reported once.  An "abort" line (a turnover returned an error) ends a         *)
-(* scenario; the next line is an init line.                                                                          *)
+(* scenario; the next line is an init line.  (A species whose quota is 0 after delta coding or after its babies were  *)
+(* stolen stays listed and may receive the offspring of OTHER species at speciation: which listed species survive is *)
+(* an input of the fin line, not derived from the quotas - a first version demanded quota > 0 and was wrong.)         *)
 EXTENDS Lifecycle, Json, IOUtils
 
 Trace == ndJsonDeserialize(IOEnv.TRACE)
@@ -72,7 +74,6 @@ FinClauses(ev) ==
         nnew == Cardinality(Ids(post) \ Ids(sp))
     IN  F(post = Finalized(sp, surv, nnew, last),
           "Fin:survivors in order, one generation older unless novel; founded species follow with consecutive ids, age 1, no record")
-        \cup F(surv \subseteq repro, "Fin:a species without quota survived")
         \cup F(ev.post.last = last + nnew, "Fin:LastSpecies")
         \cup F(ev.post.hf = hf /\ ev.post.ehlc = ehlc, "Fin:population record changed by reproduction")
         \cup F(IdsUnique(post, ev.post.last), "Law:species ids unique")
